@@ -345,6 +345,7 @@ class Recorder:
         self.trace = []
         self.counts = collections.Counter()
         self.fault = None          # (target, occurrence, exception class name)
+        self.armed_file = None     # if set: faults fire only while this file exists (lets the parent disarm forked workers)
         self.fired = False
         self.ids = {}
 
@@ -368,7 +369,8 @@ class Recorder:
         self.counts[target] += 1
         if step is not None:
             self.trace.append(step)
-        if self.fault is not None and self.fault[0] == target and self.counts[target] == self.fault[1]:
+        if self.fault is not None and self.fault[0] == target and self.counts[target] == self.fault[1] \
+                and (self.armed_file is None or os.path.exists(self.armed_file)):
             self.fired = True
             raise EXC_CLASSES[self.fault[2]](f"injected fault at {target} #{self.fault[1]}")
 
@@ -394,7 +396,9 @@ class FaultPool:
         return self.inner.map(worker, tasks, **kw)
 
     def close(self):
-        pass
+        # a faithful wrapper: if the code under test closes the user's pool, the user's pool is closed
+        self.rec.counts["pool.close"] += 1
+        return self.inner.close()
 
 
 class instrument:
